@@ -64,11 +64,11 @@ struct strided {
 
         utility::nd_map<decltype(sizes)>(
             [&sizes, &nother, &res](decltype(sizes) t) {
-                typename contravariant_input_t::scalar_t idx = 0;
+                std::size_t idx = 0;
 
                 for (std::size_t k = 0; k < contravariant_input_t::dimensions;
                      ++k) {
-                    typename contravariant_input_t::scalar_t tmp = t[k];
+                    std::size_t tmp = t[k];
 
                     for (std::size_t l = k + 1;
                          l < contravariant_input_t::dimensions;
@@ -232,7 +232,7 @@ struct strided {
         COVFIE_DEVICE typename covariant_output_t::vector_t at(coordinate_t c
         ) const
         {
-            typename contravariant_input_t::scalar_t idx = 0;
+            typename contravariant_output_t::scalar_t idx = 0;
 
 #ifndef NDEBUG
             for (std::size_t i = 0; i < contravariant_input_t::dimensions; ++i)
@@ -243,14 +243,16 @@ struct strided {
 
             for (std::size_t k = 0; k < contravariant_input_t::dimensions; ++k)
             {
-                typename contravariant_input_t::scalar_t tmp = c[k];
+                typename contravariant_output_t::scalar_t tmp =
+                    static_cast<typename contravariant_output_t::scalar_t>(c[k]
+                    );
 
                 for (std::size_t l = k + 1;
                      l < contravariant_input_t::dimensions;
                      ++l)
                 {
                     tmp *=
-                        static_cast<typename contravariant_input_t::scalar_t>(
+                        static_cast<typename contravariant_output_t::scalar_t>(
                             m_sizes[l]
                         );
                 }
